@@ -19,7 +19,7 @@ from easynetwork.lowlevel.api_sync.endpoints.stream import StreamEndpoint
 from easynetwork.lowlevel.api_sync.transports.socket import SocketStreamTransport
 
 from .. import zoo
-from ..core import Check, HarnessError, Layer, Outcome, Violation
+from ..core import Check, Inconclusive, HarnessError, Layer, Outcome, Violation
 from ..memtransports import MemStreamTransport, VerifBackend
 from ..syncworld import HarnessHang, SpinGuard, World, make_selector_factory, virtual_clock
 from ..vloop import Deadlock, run_virtual
@@ -355,6 +355,7 @@ async def _async_session(case: dict) -> dict:
         return max([c for (ta, c) in arrivals if ta <= loop.time()], default=0)
 
     async def one_recv(T: float | None, where: str) -> str:
+        jumps0 = loop.spin_jumps  # type: ignore[attr-defined]
         try:
             if T is None:
                 value = await obj.recv_packet()
@@ -362,6 +363,11 @@ async def _async_session(case: dict) -> dict:
                 with backend.timeout(T):
                     value = await obj.recv_packet()
         except TimeoutError:
+            if loop.spin_jumps > jumps0:  # type: ignore[attr-defined]
+                # the virtual loop moves its clock to the next timer after 200 busy iterations in a row (needed for
+                # cancelled scopes that poll); a receive that legitimately needs more iterations than that (hundreds of
+                # 1-byte reads) then sees its own deadline pass although no time would pass on a real loop
+                raise Inconclusive(f"{where}: the virtual clock jumped during a busy run of the receive itself")
             judge.timeout(where, T is not None, arrived_now())
             return "timeout"
         except ClientClosedError as exc:
